@@ -201,3 +201,20 @@ def replay_task(args):
         traces.append({"kind": "c11", "m": "%s/%s" % (isa_name, mode), "src": "T", "ev": ev})
     used = isa.pending(pristine) is not None
     return {"isa": isa_name, "mode": mode, "traces": traces, "skipped": skipped, "pristine_touched": used}
+
+
+def replay_history(args):
+    """re-execute a recorded call history on ONE object of the current tree (./check C11 --replay);
+    `bases` are fresh-process outcomes computed by baseline_task for the same inputs"""
+    isa_name, mode, inputs, classes, bases = args
+    D.watchdog_init()
+    D.mute_stdout()
+    isa = D.Isa(isa_name, mode)
+    D.quiet()
+    dis = copy.copy(isa.dis)
+    ev = []
+    for hx, c, b in zip(inputs, classes, bases):
+        e = _call(isa, dis, hx, b)
+        e["cls"] = c
+        ev.append(e)
+    return {"kind": "c11", "m": "%s/%s" % (isa_name, mode), "src": "replay", "ev": ev}
